@@ -5,6 +5,7 @@
 package scen
 
 import (
+	"strings"
 	"encoding/json"
 	"math/rand"
 	"time"
@@ -152,6 +153,7 @@ func randFilterTerm(rng *rand.Rand, depth int) world.FilterSpec {
 		{Op: "nsnames", V: "n1/a,n2/b"}, {Op: "nsnames", V: "n2/b,n1/a"}, {Op: "nsnames", V: "n1/,n2/a"}, {Op: "nsnames", V: "/a,n-1/a,n/1-a"},
 		{Op: "lsel", K: "app", V: "a"}, {Op: "lsel", K: "app", V: "a|b"}, {Op: "lsel", K: "app", V: "b|a"}, {Op: "lsel", K: "tier", V: "x|y"},
 		{Op: "sel", K: "app", V: "a"}, {Op: "sel", K: "app", V: "ab"},
+		{Op: "rvparity", V: "odd"}, {Op: "rvparity", V: "even"},
 	}
 	if depth <= 0 || rng.Intn(3) == 0 {
 		return atoms[rng.Intn(len(atoms))]
@@ -317,6 +319,14 @@ func itoa(i int) string {
 }
 
 func checkNoLeak() {
+	for _, site := range detsim.OpenContexts() {
+		// (-trimpath: library files appear under their module path)
+		if i := strings.Index(site, "boz/kcache"); i >= 0 {
+			// (-trimpath: library files appear under their module path, with or without a version suffix)
+			where := site[strings.LastIndex(site, "/")+1:]
+			detsim.Fail("leak:context@"+where, "a context derived by the library at %s is still alive and was never cancelled although everything the library started has shut down (one per call: it stays registered with its parent for as long as the parent lives)", where)
+		}
+	}
 	live := world.LiveLibGoroutines("world/", "scen/")
 	if len(live) > 0 {
 		g := live[0]
